@@ -5,8 +5,12 @@ import numpy as np
 
 from common import R, Rmat, fl, flmat, max_rel_err
 
-LEAN_MODULES = ["PyomaVerif.Props.C12"]
+from common import wiring_pre_build as pre_build  # noqa: E402,F401
+
+LEAN_MODULES = ["PyomaVerif.Props.C12", "PyomaVerif.Props.WiringRun"]
 THEOREMS = [
+    # call-site wiring of the class layer, regenerated from /repo on every run (translate_wiring.py)
+    "PV.WiringRun.C12_run_build_hank",
     "PV.C12.C12_shape_mm",
     "PV.C12.C12_shape_R",
     "PV.C12.C12_shape_dat",
